@@ -24,6 +24,10 @@ checks = {
    text="Seeded deterministic simulation in four run classes. (memo) 2-5 tasks call Get concurrently and repeatedly on one shared deferred value (lazy.Call/TailCall/TailCall1-3/Memoize/Func1-3, fp.Memoize) whose instrumented thunk counts executions, yields inside (other tasks then really block on the library's sync.Once; detected from the runtime's wait reason) and, as a fault, panics. (eval) random Eval expression trees shared by 1-4 tasks, compared with a strict interpreter. (list) memoised list cells of fp.MakeList/list.Generate*/Recurrence*/Map/Zip/Scan/Collect/iterator.ToList walked by 2-4 tasks. (tailrec) tail-recursive TailCall/TailCall1-3/mutual-recursion programs up to 10^6 (quick) / 2*10^7 (thorough) steps under an 8 MB stack limit; a stack overflow is a fatal error attributed through the crash journal. Oracles: every deferred computation instance executes at most once at all times, results equal strict evaluation and are not returned before the computation finished. Sampling, not proof.",
    note="Trusted: sync.Once. A panicking thunk counts as executed (sync.Once semantics). Single-task eval/tailrec runs are deterministic payload runs and are reported as separate run classes, not as interleavings. FoldRight chains are only value-checked at moderate depth (they are not tail recursive).",
    technique="deterministic simulation: seeded scheduler with stalls inside thunks (real blocking on sync.Once), thunk-panic and stack-limit faults, execution counters + strict reference interpreter"),
+ "C20": dict(cat="exploration", design="DESIGN.md §4 C20",
+   text="Seeded deterministic simulation. (two-sided) two consumer tasks follow seeded call scripts (HasNext repeated 1-3 times before each Next, early stop, Next on exhausted) on the two outputs of Duplicate/Span/Partition (optionally under further combinators) over an instrumented finite or unbounded source; they are interleaved call by call, and mid-call when the source stalls while the library's mutex is held (the other side then really blocks on it). Oracles: each side delivers exactly its slice-reference sequence, every HasNext agrees with the reference and changes nothing, Next on exhausted panics, the source is never used concurrently nor over-pulled, drained sides pulled each element once. (one-sided) same scripts over seeded pipelines of iterator constructors and 22 combinators; (unordered) map/set iterators as multisets under three lawful hashers; (zero) every method of the zero-value Iterator. Sampling, not proof.",
+   note="Trusted: sync.Mutex; the slice reference implementations in the harness. How far ahead a combinator may pull is C12's question and deliberately not checked; consumers always call HasNext before Next.",
+   technique="deterministic simulation: seeded scheduler over consumer calls + stalled-source fault under the library lock, slice reference model, pull counters"),
 }
 
 na = {
